@@ -119,6 +119,77 @@ func genC18(g *gen) {
 	g.line("Definition gen_can_write_states : list N := %s.", set("CanWrite"))
 	g.line("Definition gen_can_read_states : list N := %s.", set("CanRead"))
 
+	// Stream.Read: the first select takes buffered data without blocking; the
+	// closed arm and the remoteFin arm of the second select drain the buffer
+	// (inner select with a readBuffer case) before returning io.EOF; the
+	// second select also has a readBuffer arm
+	firstTakes, closedDrains, finDrains, dataArm := false, false, false, false
+	if fd := findFunc(f, "Stream", "Read"); fd != nil && fd.Body != nil {
+		nsel := 0
+		for _, st := range fd.Body.List {
+			sel, ok := st.(*ast.SelectStmt)
+			if !ok {
+				continue
+			}
+			nsel++
+			for _, cl := range sel.Body.List {
+				cc := cl.(*ast.CommClause)
+				comm := src(cc.Comm)
+				hasInnerDrain := false
+				for _, b := range cc.Body {
+					if inner, ok := b.(*ast.SelectStmt); ok {
+						takes, def := false, false
+						for _, icl := range inner.Body.List {
+							icc := icl.(*ast.CommClause)
+							if icc.Comm == nil {
+								def = strings.Contains(src(icc), "io.EOF")
+							} else if strings.Contains(src(icc.Comm), "<-s.readBuffer") {
+								takes = true
+							}
+						}
+						hasInnerDrain = takes && def
+					}
+				}
+				switch {
+				case nsel == 1 && strings.Contains(comm, "<-s.readBuffer"):
+					// must be a non-blocking select: there is a default clause
+					for _, c2 := range sel.Body.List {
+						if c2.(*ast.CommClause).Comm == nil {
+							firstTakes = true
+						}
+					}
+				case nsel == 2 && strings.Contains(comm, "<-s.closed"):
+					closedDrains = hasInnerDrain
+				case nsel == 2 && strings.Contains(comm, "<-s.remoteFinCh"):
+					finDrains = hasInnerDrain
+				case nsel == 2 && strings.Contains(comm, "<-s.readBuffer"):
+					dataArm = true
+				}
+			}
+		}
+	}
+	if !(firstTakes && closedDrains && finDrains && dataArm) {
+		g.note("Stream.Read select structure not recognised")
+	}
+	g.line("Definition gen_read_first_select_takes_buffered : bool := %s.", coqBool(firstTakes))
+	g.line("Definition gen_read_closed_arm_drains : bool := %s.", coqBool(closedDrains))
+	g.line("Definition gen_read_fin_arm_drains : bool := %s.", coqBool(finDrains))
+	g.line("Definition gen_read_has_data_arm : bool := %s.", coqBool(dataArm))
+
+	// PushData refuses with io.EOF once the stream is closed (first select)
+	pushRefuses := false
+	if fd := findFunc(f, "Stream", "PushData"); fd != nil && fd.Body != nil && len(fd.Body.List) > 0 {
+		if sel, ok := fd.Body.List[0].(*ast.SelectStmt); ok {
+			for _, cl := range sel.Body.List {
+				cc := cl.(*ast.CommClause)
+				if cc.Comm != nil && strings.Contains(src(cc.Comm), "<-s.closed") && strings.Contains(src(cc), "io.EOF") {
+					pushRefuses = true
+				}
+			}
+		}
+	}
+	g.line("Definition gen_push_refused_when_closed : bool := %s.", coqBool(pushRefuses))
+
 	// meshConn.Write: first statement is `if !c.stream.CanWrite() { return 0, ... }`
 	af := parseFile("internal/agent/agent.go")
 	guard := false
